@@ -93,7 +93,31 @@ def run(tier, seed, replay=None):
         plan = [("mem", 2, len(paths) if thorough else 1500), ("file", 2, 400 if thorough else 40)]
         replayed = 0
         for backend, capu, count in plan:
-            sel = paths if count >= len(paths) else rnd.sample(paths, count)
+            if count >= len(paths):
+                sel = paths
+            else:
+                # every path on which a parked side is woken first (wake-ups are where a lost signal shows), then a seeded sample of the rest
+                iswake = [any(nodes[n]["last"].get("a") in ("WWake", "RWake") for n in p[1:]) for p in paths]
+                wake = [p for p, w in zip(paths, iswake) if w]
+                rest = [p for p, w in zip(paths, iswake) if not w]
+                rnd.shuffle(wake)
+                # a third of the budget for paths with a wake-up, chosen so that every distinct context of a wake-up (the three
+                # steps before it: who parked, how much the other side moved) is replayed before any context is replayed twice
+                def contexts(p):
+                    st = [nodes[n]["last"] for n in p[1:]]
+                    return {tuple((x.get("a"), x.get("n"), x.get("k")) for x in st[max(0, i - 3):i + 1])
+                            for i, x in enumerate(st) if x.get("a") in ("WWake", "RWake")}
+                seen_ctx, first, later = set(), [], []
+                for p in wake:
+                    c = contexts(p)
+                    (first if c - seen_ctx else later).append(p)
+                    seen_ctx |= c
+                sel = (first + later)[:count // 3]
+                stats["wake_contexts"] = len(seen_ctx)
+                if len(sel) < count:
+                    sel += rnd.sample(rest, min(len(rest), count - len(sel)))
+                stats["wake_paths_%s" % backend] = min(len(wake), count // 3)
+                log("[A] %s: %d of %d cover paths replayed, at least %d of them contain a wake-up (of %d)" % (backend, len(sel), len(paths), min(len(wake), count // 3), len(wake)))
             steps = [[nodes[n]["last"] for n in p[1:]] for p in sel]
             trace = sc.path("replay-%s.ndjson" % backend)
             inp = {"backend": backend, "cap": 2, "unit": UNIT[backend], "seed": seed, "paths": steps,
